@@ -132,11 +132,11 @@ fn realisation(d: &Design, rng: &mut Rng, t: &mut Tally) {
 }
 
 pub fn run(ctx: &Ctx) {
-    ctx.rule("designs: F1 two decays + offset, F2 Gaussian peak + decay + offset, F3 decay + offset on N in {10,14,30} points; noise Gaussian with sigma_i = 1e-4 (every fourth design: 1e-9) of the largest coefficient (homoscedastic, unweighted) or spread over a decade (weights 1/sigma_i, or c/sigma_i with c in [0.2,5]); per design K independent realisations (quick 6000 on 8 designs, thorough 100000 on 12), each fitted with fit_with_statistics from a start 1% off; tallies: true curve inside the band per sample, true c_j and alpha_k inside the Student-t interval built from the reported variance (oracle's own quantile), p in {0.5, 0.683, 0.9, 0.99}; mean reduced chi2 (1 for w=1/sigma, c^2 for w=c/sigma). Verdict per tally: |frequency - p| <= 6·sqrt(p(1-p)/K) + 0.004. evaluations = fits; distinct = (design, realisation block)");
+    ctx.rule("designs: F1 two decays + offset, F2 Gaussian peak + decay + offset, F3 decay + offset on N in {10,14,30} points; noise Gaussian with sigma_i = 1e-4 (every fourth design: 1e-9) of the largest coefficient (homoscedastic, unweighted) or spread over a decade (weights 1/sigma_i, or c/sigma_i with c in [0.2,5]); per design K independent realisations (quick 6000 on 8 designs, thorough 300000 on 12), each fitted with fit_with_statistics from a start 1% off; tallies: true curve inside the band per sample, true c_j and alpha_k inside the Student-t interval built from the reported variance (oracle's own quantile), p in {0.5, 0.683, 0.9, 0.99}; mean reduced chi2 (1 for w=1/sigma, c^2 for w=c/sigma). Verdict per tally: |frequency - p| <= 6·sqrt(p(1-p)/K) + 0.004. evaluations = fits; distinct = (design, realisation block)");
     ctx.assume("6-sigma binomial bounds over <= 1e3 tests per run give a false-alarm rate < 1e-5 per run; the 0.004 slack absorbs the O(noise) non-linearity bias and the library's quantile approximation; a pass says 'not distinguishable from calibrated at resolution ~0.01'");
     let t = ctx.tier;
     let nd = t.pick(8, 12);
-    let k_per = t.pick(6000u64, 100000u64);
+    let k_per = t.pick(6000u64, 300000u64);
     let ds = designs(ctx.seed, nd);
     let block = 500u64;
     let blocks = k_per / block;
